@@ -578,6 +578,31 @@ fn shrink_fmt(f: &Fmt, drv: &mut Driver) -> Fmt {
             loop {
                 let mut g = cur.clone();
                 let shorter = match &mut g.sections[0][ti] {
+                    Tok::Lit(s) if s.chars().count() > 24 => {
+                        // long literal: smallest failing prefix by bisection (the failure depends on the length)
+                        let cs: Vec<char> = s.chars().collect();
+                        let with = |n: usize, cur: &Fmt| -> Fmt {
+                            let mut h = cur.clone();
+                            h.sections[0][ti] = Tok::Lit(cs[..n].iter().collect());
+                            h
+                        };
+                        let (mut lo, mut hi) = (0usize, cs.len());
+                        while lo + 1 < hi {
+                            let mid = (lo + hi) / 2;
+                            if bad(&with(mid, &cur), drv) == want {
+                                hi = mid;
+                            } else {
+                                lo = mid;
+                            }
+                        }
+                        if hi < cs.len() && bad(&with(hi, &cur), drv) == want {
+                            *s = cs[..hi].iter().collect();
+                            // one bisection per token: stop here (the char-by-char pass would be quadratic)
+                            cur = g.clone();
+                            progressed = true;
+                        }
+                        false
+                    }
                     Tok::Lit(s) | Tok::Brk(s) | Tok::DateTok(s) | Tok::Elapsed(s) if s.chars().count() > 1 => {
                         let mut done = false;
                         for k in 0..s.chars().count() {
@@ -955,7 +980,39 @@ fn gen_section(rng: &mut Rng) -> Vec<Tok> {
     }
     toks
 }
+/// literal text of many multi-byte characters: a legal format of at most 255 CHARACTERS whose UTF-8 size is well
+/// beyond 255 BYTES (quoted CJK / accented text in front of the date tokens)
+const WIDE_CHARS: &str = "年月日時分秒曜平成令和度éèüößñçÅøžşığЖдйґ€✓円";
+fn gen_long_fmt(rng: &mut Rng) -> Fmt {
+    let n = rng.range(86, 200) as usize;
+    let lit: String = (0..n).map(|_| pick_char(rng, WIDE_CHARS)).collect();
+    let mut toks = vec![];
+    if rng.chance(1, 3) {
+        toks.push(gen_brk(rng));
+    }
+    toks.push(Tok::Lit(lit));
+    for _ in 0..rng.below(3) {
+        toks.push(gen_num(rng));
+    }
+    match rng.below(4) {
+        0 => {}
+        1 => toks.push(gen_elapsed(rng)),
+        _ => toks.push(gen_datetok(rng)),
+    }
+    for _ in 0..rng.below(4) {
+        toks.push(if rng.chance(1, 2) { gen_num(rng) } else { gen_datetok(rng) });
+    }
+    if rng.chance(1, 4) {
+        toks.rotate_right(1); // the long literal is not always in front
+    }
+    let f = Fmt { sections: vec![toks] };
+    debug_assert!(f.render().chars().count() <= 255);
+    f
+}
 fn gen_fmt(rng: &mut Rng) -> Fmt {
+    if rng.chance(1, 25) {
+        return gen_long_fmt(rng);
+    }
     let mut sections = vec![gen_section(rng)];
     for _ in 0..rng.below(4) {
         if rng.chance(1, 2) {
@@ -1319,6 +1376,144 @@ fn check_raw_formatcode(raw: &str, drv: &mut Driver, out: &mut Out) {
     out.count("corpus");
 }
 
+/// A cellXfs table with more than 65 536 entries (the file format allows it; the cell's `s` is an unsigned 32-bit
+/// index): date / elapsed formats sit just below, at and above index 65 536 and at the very end, everything else is
+/// General. Cells point at those entries (in range: expectation from the property), at the first index past the
+/// table and far beyond it (out of range: the reader leaves the number plain — impl vs model).
+fn check_big_xf_table(drv: &mut Driver, out: &mut Out) {
+    use calamine::{Reader, Xlsx};
+    use verif_harness::xlsxw;
+    const N: usize = 65_544;
+    let elapsed = Fmt { sections: vec![vec![Tok::Elapsed("h".into()), Tok::Num(':'), Tok::DateTok("mm".into())]] };
+    let mut xfs = vec![0u32; N];
+    for (i, id) in [(65_533usize, 14u32), (65_535, 46), (65_536, 14), (65_538, 165), (65_539, 22), (N - 1, 21)] {
+        xfs[i] = id;
+    }
+    let class_of = |id: u32| if id == 165 { elapsed.classify() } else { documented_class(id) };
+    let letters: String = xfs.iter().map(|id| letter(class_of(*id)) as char).collect();
+    let probes: Vec<u64> = vec![0, 1, 65_533, 65_534, 65_535, 65_536, 65_537, 65_538, 65_539, N as u64 - 1, N as u64, 70_000, 131_072 + 14, 4_294_967_295];
+    let value = 44197.25f64;
+    for d1904 in [false, true] {
+        let mut book = xlsxw::XlsxBook::new();
+        book.date1904 = Some(d1904);
+        book.num_fmts = vec![(165, elapsed.render())];
+        book.cell_xfs = xfs.clone();
+        let mut sh = xlsxw::XlsxSheet::new("S");
+        for (j, sidx) in probes.iter().enumerate() {
+            sh.set(0, j as u32, xlsxw::XCell::num("44197.25").with_style(*sidx as u32));
+        }
+        book.sheets.push(sh);
+        let mut layout = xlsxw::Layout::plain();
+        layout.pct_t_n_styled = if d1904 { 100 } else { 0 };
+        let bytes = book.build(&layout).bytes;
+        let input = format!("bigxf {}", d1904 as u8);
+        let range = guarded(|| -> Result<calamine::Range<Data>, String> {
+            Xlsx::new(std::io::Cursor::new(bytes)).map_err(|e| format!("open: {e:?}"))?.worksheet_range("S").map_err(|e| format!("range: {e:?}"))
+        });
+        let range = match range {
+            Ok(Ok(r)) => r,
+            Ok(Err(e)) => {
+                out.fail("impl_vs_spec", "file:xlsx:big-xf-table-unreadable", &input, &e, "", "the workbook opens");
+                continue;
+            }
+            Err(p) => {
+                out.fail("impl_vs_spec", "file:xlsx:big-xf-table-unreadable", &input, &format!("panic: {p}"), "", "the workbook opens");
+                continue;
+            }
+        };
+        for (j, sidx) in probes.iter().enumerate() {
+            let got = canon_cell(range.get_value((0, j as u32)));
+            let m = drv.ask(&format!("xlsxcell {letters} {}", hex(sidx.to_string().as_bytes())));
+            let shown = format!("{input}   [cell (0,{j}) s=\"{sidx}\" of {N} cell XFs]");
+            let got_letter = match cell_letter(&got) {
+                'O' => "N".to_string(),
+                c => c.to_string(),
+            };
+            if (*sidx as usize) < N {
+                let want = expect_cell(class_of(xfs[*sidx as usize]), value, d1904);
+                if got != want {
+                    out.fail("impl_vs_spec", "file:xlsx:style-index", &shown, &got, &m, &want);
+                }
+                if m != (match letter(class_of(xfs[*sidx as usize])) as char { 'O' => "N".to_string(), c => c.to_string() }) {
+                    out.fail("model_vs_spec", "model:xlsx-style-index", &shown, &got, &m, &want);
+                }
+            }
+            if got_letter != m {
+                out.fail("impl_vs_model", "file:xlsx:style-index", &shown, &got, &m, "");
+            }
+        }
+        out.cases.push((input, true));
+        out.count("corpus");
+    }
+}
+
+/// `s` attributes spelled in ways the shared writer never produces (leading zeros, signs, blanks, empty, non-numeric,
+/// beyond 64 bits): the worksheet part is written by hand; XF 0 is a DATE format so that "fell back to style 0" shows.
+/// Legal spellings (digits, in range) carry the property's expectation, the others are compared impl vs model only.
+fn check_raw_s_attr(drv: &mut Driver, out: &mut Out) {
+    use calamine::{Reader, Xlsx};
+    use verif_harness::xlsxw;
+    let xfs = [14u32, 0, 46];
+    let letters = "DOT";
+    let spellings: [(&str, Option<usize>); 20] = [
+        ("0", Some(0)), ("1", Some(1)), ("2", Some(2)), ("01", Some(1)), ("002", Some(2)), ("00000000000000000002", Some(2)),
+        ("3", None), ("4294967296", None), ("18446744073709551615", None), ("18446744073709551616", None),
+        ("99999999999999999999", None), ("+1", None), ("-1", None), (" 1", None), ("1 ", None), ("", None), ("abc", None),
+        ("1.0", None), ("1e0", None), ("0x1", None),
+    ];
+    let mut xml = String::from("<?xml version=\"1.0\" encoding=\"UTF-8\" standalone=\"yes\"?>\n<worksheet xmlns=\"http://schemas.openxmlformats.org/spreadsheetml/2006/main\"><sheetData><row r=\"1\">");
+    for (j, (sp, _)) in spellings.iter().enumerate() {
+        xml.push_str(&format!("<c r=\"{}1\" s=\"{}\"><v>44197.25</v></c>", xlsxw::col_name(j as u32), sp));
+    }
+    xml.push_str(&format!("<c r=\"{}1\"><v>44197.25</v></c>", xlsxw::col_name(spellings.len() as u32)));
+    xml.push_str("</row></sheetData></worksheet>");
+    let mut book = xlsxw::XlsxBook::new();
+    book.cell_xfs = xfs.to_vec();
+    let mut sh = xlsxw::XlsxSheet::new("S");
+    sh.raw_xml = Some(xml);
+    book.sheets.push(sh);
+    let bytes = book.build(&xlsxw::Layout::plain()).bytes;
+    let range = guarded(|| -> Result<calamine::Range<Data>, String> {
+        Xlsx::new(std::io::Cursor::new(bytes)).map_err(|e| format!("open: {e:?}"))?.worksheet_range("S").map_err(|e| format!("range: {e:?}"))
+    });
+    let range = match range {
+        Ok(Ok(r)) => r,
+        other => {
+            out.fail("impl_vs_spec", "file:xlsx:raw-s-unreadable", "rawsattr", &format!("{other:?}"), "", "the workbook opens");
+            return;
+        }
+    };
+    let n = spellings.len();
+    for j in 0..=n {
+        let (sp, legal) = if j < n { (Some(spellings[j].0), spellings[j].1) } else { (None, None) };
+        let got = canon_cell(range.get_value((0, j as u32)));
+        let m = drv.ask(&format!("xlsxcell {letters} {}", match sp {
+            Some(t) => hex(t.as_bytes()),
+            None => "absent".into(),
+        }));
+        let shown = format!("rawsattr   [cell (0,{j}) s={sp:?}, cell XFs = formats 14, 0, 46]");
+        let got_letter = match cell_letter(&got) {
+            'O' => "N".to_string(),
+            c => c.to_string(),
+        };
+        let want = match (sp, legal) {
+            (None, _) => Some(expect_cell("Other", 44197.25, false)),
+            (_, Some(i)) => Some(expect_cell(documented_class(xfs[i]), 44197.25, false)),
+            _ => None,
+        };
+        if let Some(w) = &want {
+            if *w != got {
+                out.fail("impl_vs_spec", "file:xlsx:style-index", &shown, &got, &m, w);
+            }
+        }
+        if got_letter != m {
+            out.fail("impl_vs_model", "file:xlsx:style-index-spelling", &shown, &got, &m, want.as_deref().unwrap_or("(not a legal index: no expectation)"));
+        }
+    }
+    out.cases.push(("rawsattr".into(), true));
+    out.count("corpus");
+}
+
 fn gen_style_case(rng: &mut Rng, kind: &'static str) -> StyleCase {
     let mut defs: Vec<(u16, Fmt)> = vec![];
     for _ in 0..rng.below(6) {
@@ -1329,7 +1524,7 @@ fn gen_style_case(rng: &mut Rng, kind: &'static str) -> StyleCase {
             2 if !defs.is_empty() => defs[rng.below(defs.len() as u64) as usize].0, // defined twice
             _ => rng.range(164, 180) as u16,
         };
-        let mut f = gen_fmt(rng);
+        let mut f = if rng.chance(1, 8) { gen_long_fmt(rng) } else { gen_fmt(rng) };
         if rng.chance(1, 2) {
             f.sections.truncate(1);
         }
@@ -1432,7 +1627,11 @@ fn main() {
          (6) file level: generated xlsx/xlsb/xls workbooks with 0-5 custom formats from the grammar (ids 164-180, built-in \
          ids redefined, ids defined twice), 2-10 cell XFs over custom, built-in and undefined ids, both date systems, every \
          numeric encoding of the shared writers; per cell: DateTime(value, flavour, date system) iff the XF's format is a \
-         date format (custom definition if the id is defined, else ECMA table). No expectation (impl vs model only) for: \
+         date format (custom definition if the id is defined, else ECMA table). Once per run: a cellXfs table of 65 544 entries with date/elapsed formats around index 65 536 and at the end \
+         (cells pointing in range: expectation; past the table: impl vs model, plain number), hand-written `s` spellings \
+         (leading zeros legal; signs, blanks, empty, non-numeric, > 64 bits: impl vs model, style 0), and formats of <= 255 \
+         characters but > 255 bytes (quoted CJK / accented text) in the grammar and file streams. \
+         No expectation (impl vs model only) for: \
          ill-formed or empty custom strings; id 0 (General) is never redefined in xlsx cases (an <xf> may omit numFmtId); in xlsb a built-in date id redefined with another class (xlsb consults the \
          built-in table first).",
     );
@@ -1441,7 +1640,7 @@ fn main() {
 
     if let Some(r) = &args.replay {
         let mut out = Out::default();
-        let r = r.split("   [text:").next().unwrap().split("   [xf").next().unwrap().trim();
+        let r = r.split("   [text:").next().unwrap().split("   [xf").next().unwrap().split("   [cell").next().unwrap().trim();
         let w: Vec<&str> = r.split(' ').collect();
         match w.as_slice() {
             ["gram", d] => {
@@ -1473,6 +1672,8 @@ fn main() {
             }
             ["fmtf64", v, f, d] => check_wrap_f64(v.parse().unwrap(), parse_fmt_arg(f), *d == "1", &mut drv, &mut out),
             ["fmti64", v, f, d] => check_wrap_i64(v.parse().unwrap(), parse_fmt_arg(f), *d == "1", &mut drv, &mut out),
+            ["bigxf", _] | ["bigxf"] => check_big_xf_table(&mut drv, &mut out),
+            ["rawsattr"] => check_raw_s_attr(&mut drv, &mut out),
             ["rawfmt", h] => check_raw_formatcode(&String::from_utf8(unhex(h)).expect("utf8"), &mut drv, &mut out),
             w if w.first() == Some(&"file") => {
                 let r2 = r.split("   [xf").next().unwrap().trim();
@@ -1566,6 +1767,30 @@ fn main() {
         check_file(&c, &mut drv, &mut out, false);
         out.cases.push((c.wire(), true));
         out.count("corpus");
+    }
+    // seeded change C10-m8 (style index parsed as u16): a cellXfs table of 65 544 entries, built once per run;
+    // the spellings of `s` the unchanged reader accepts / maps to style 0
+    check_big_xf_table(&mut drv, &mut out);
+    check_raw_s_attr(&mut drv, &mut out);
+    // seeded change C10-m6 (formats of more than 255 BYTES not scanned): 90 quoted CJK characters (270 bytes, well
+    // under 255 characters) in front of date tokens / an elapsed unit, as a format string and inside each container
+    {
+        let wide: String = "年月日時分秒曜平成".chars().cycle().take(90).collect();
+        let date = Fmt { sections: vec![vec![Tok::Lit(wide.clone()), Tok::DateTok("yyyy".into()), Tok::Num('/'), Tok::DateTok("mm".into())]] };
+        let el = Fmt { sections: vec![vec![Tok::Brk("Red".into()), Tok::Lit(wide.clone()), Tok::Elapsed("h".into()), Tok::Num(':'), Tok::DateTok("mm".into())]] };
+        let num = Fmt { sections: vec![vec![Tok::Num('0'), Tok::Num('.'), Tok::Num('0'), Tok::Lit(wide)]] };
+        for f in [&date, &el, &num] {
+            assert!(f.wf() && f.render().len() > 255 && f.render().chars().count() <= 255);
+            check_gram(f, &mut drv, &mut out, false);
+            out.cases.push((format!("gram {}", f.wire()), true));
+            out.count("corpus");
+        }
+        for kind in ["xlsx", "xlsb", "xls"] {
+            let c = StyleCase { kind, defs: vec![(164, date.clone()), (165, el.clone()), (166, num.clone())], xfs: vec![0, 164, 165, 166], date1904: false, seed: 11 };
+            check_file(&c, &mut drv, &mut out, false);
+            out.cases.push((c.wire(), true));
+            out.count("corpus");
+        }
     }
     // review finding on fix 303c869: a malformed entity in formatCode must not stop the workbook from opening
     for raw in ["0 & 0", "0 &foo; 0", "yyyy & mm", "0.0 &quot d", "&#x110000;0"] {
